@@ -19,7 +19,7 @@ TECHNIQUE = ('grammar-based program generation (member chains, calls, indexing, 
              'the same oracle in the target, evaluated over tripwired sentinel objects and real nodes; exhaustive '
              'name-resolution check over builtins')
 RULE = ("Cases are expression strings: grammar-generated (identifiers from the given variables, the documented whitelist "
-        "and ~30 non-whitelisted builtins/dunders; member chains over public, _private, __mangled and __dunder__ names; "
+        "and ~30 non-whitelisted builtins/dunders; member chains over public, _private, __mangled, __dunder__ names and Unicode look-alikes of them (fullwidth low line, fullwidth letters); "
         "calls, indexing, list literals, all operators; string literals that are format templates such as '{0._x}', "
         "'{a.__class__}', '%(k)s'; dedicated productions <template>.format(<sentinel>), str.format(<template>, ..), "
         "<template>.format_map(dict([[k, <sentinel>]])), <template> % <sentinel>, map(str.format, ..)) and byte-level "
@@ -101,6 +101,8 @@ DOCUMENTED = ['str', 'bool', 'int', 'bytes', 'float', 'bytearray', 'dict', 'set'
               'iter', 'len', 'list', 'slice', 'sorted', 'sum', 'tuple', 'round']
 PRIV = ['_x', '__hidden', '_Sentinel__m', '__priv__', '__dict__', '__class__', '__init__', '__globals__', '__getattribute__',
         '__doc__', '__module__', '_vf_secret', '_parent', '_children', '__subclasses__', '__mro__', '__bases__']
+# names that only *become* private / forbidden under Unicode normalisation (fullwidth and wavy low lines, fullwidth letters)
+LOOKALIKE = ['＿x', '﹏x', '＿_hidden', '＿vf_secret', '＿_dict__', '︳x', 'ｆormat', 'format＿map', '＿Sentinel__m']
 PUB = ['pub', 'name', 'child', 'items', 'data', 'meth', 'format', 'format_map', 'join', 'keys', 'values', 'get', 'real', 'upper',
        'object', 'key', 'value', 'parent', 'children', 'to_obj', 'tag', 'attrib', 'text', 'mro', 'fromkeys', 'maketrans', 'translate']
 BADN = ['getattr', 'eval', 'exec', 'open', 'type', 'vars', 'dir', 'globals', 'locals', '__import__', 'object', 'isinstance',
@@ -125,7 +127,8 @@ def grammar():
         st.builds(lambda t, a: f"{t} % {a}", tmpl, sent),
         st.builds(lambda t, a: f"list(map(str.format, [{t}], [{a}]))", tmpl, sent),
         st.builds(lambda t, a: f"{t}.format(a={a})", tmpl, sent),
-        st.builds(lambda a, n: f"{a}.{n}", sent, st.sampled_from(PRIV)),
+        st.builds(lambda a, n: f"{a}.{n}", sent, st.sampled_from(PRIV + LOOKALIKE)),
+        st.builds(lambda t, a: f"{t}.ｆormat({a})", tmpl, sent),
         st.builds(lambda a, n, form: form.format(x=a, n=n), sent, st.sampled_from(PRIV),
                   st.sampled_from(['{x}.({n})', '{x}. ({n})', '{x}.(({n}))', '{x} . {n}', '({x}).{n}', '{x}.[{n}]', "{x}.'{n}'"])),
     )
@@ -149,7 +152,7 @@ def grammar():
 
     def member(e):
         # also odd spellings of the member name: parenthesised, spaced, bracketed
-        return st.builds(lambda x, n, form: form.format(x=x, n=n), e, st.sampled_from(PRIV + PUB),
+        return st.builds(lambda x, n, form: form.format(x=x, n=n), e, st.sampled_from(PRIV + PUB + LOOKALIKE),
                          st.sampled_from(['{x}.{n}', '{x}.{n}', '{x}.{n}', '{x}.({n})', '{x}. ({n})', '{x}.(({n}))', '{x} . {n}',
                                           '({x}).{n}', '{x}.[{n}]', "{x}.'{n}'", '{x}..{n}']))
 
